@@ -176,6 +176,19 @@ package state
 //@ func (*StateReader).ContractClassHashAt
 //@   trusted
 //@   ensures result1 == nil ==> result0 == classHashAsOf(*addr, blockNum)
+// The head accessors (trusted): the head values, unrelated to the value as of an earlier block.
+//@ ghost func headStorage(addr felt.Felt, key felt.Felt) felt.Felt
+//@ ghost func headNonce(addr felt.Felt) felt.Felt
+//@ ghost func headClassHash(addr felt.Felt) felt.Felt
+//@ func (*StateReader).ContractStorage
+//@   trusted
+//@   ensures result1 == nil ==> result0 == headStorage(*addr, *key)
+//@ func (*StateReader).ContractNonce
+//@   trusted
+//@   ensures result1 == nil ==> result0 == headNonce(*addr)
+//@ func (*StateReader).ContractClassHash
+//@   trusted
+//@   ensures result1 == nil ==> result0 == headClassHash(*addr)
 //@ func (*StateReader).ContractStorageLastUpdatedAt
 //@   trusted
 //@   ensures result1 == nil ==> result0 == lastUpdatedAsOf(*addr, *key, blockNum)
